@@ -43,11 +43,20 @@ class Bad(Exception):
         self.detail = detail
 
 
+_SINK = [None, 0]
+
+
 def need(cond, finding, detail=""):
+    """records the finding and goes on: a finding that belongs to another
+    property must not hide the ones after it"""
     if not cond:
         if callable(detail):
             detail = detail()
-        raise Bad(finding, detail if isinstance(detail, str) else repr(detail))
+        _SINK[1] += 1
+        if _SINK[1] > 200:
+            raise Bad(finding, "too many findings in one script run")
+        _SINK[0].append((finding, detail if isinstance(detail, str)
+                         else repr(detail)))
 
 
 # ------------------------------------------------------------ structures
@@ -410,8 +419,14 @@ def script_blocks(g, n, prop, out):
     steps = 0
     for pre in ("cold", "warm"):
         for batch in ("move-out-and-back", "shift-offsets", "discard-readd",
-                      "bulk-add", "sizes", "to-other-interval"):
+                      "bulk-add", "sizes", "to-other-interval",
+                      "there-and-back", "replace-same-extent",
+                      "park-then-move-on"):
             for k in ks(n):
+                if n > 40 and n not in (64, 65) and batch in (
+                        "there-and-back", "replace-same-extent",
+                        "park-then-move-on"):
+                    continue
                 ir = g.IR(uuid=U(990001))
                 m = g.Module(name="m", uuid=U(990004), ir=ir)
                 s = g.Section(name="s", uuid=U(990005), module=m)
@@ -444,6 +459,39 @@ def script_blocks(g, n, prop, out):
                         new = [mk_child(g, "K", n + i) for i in range(k)]
                         bi.blocks.update(new)
                         kids = kids + new
+                    elif batch == "there-and-back":
+                        for b in S:
+                            b.offset += 4
+                            b.offset -= 4
+                        for b in S[:2]:
+                            b.size += 1
+                            b.size -= 1
+                    elif batch == "replace-same-extent":
+                        # another node with exactly the extent of the one
+                        # that just left (a data block re-typed as code)
+                        new = []
+                        for i, b in enumerate(S):
+                            bi.blocks.discard(b)
+                            nb = (g.DataBlock if isinstance(b, g.CodeBlock)
+                                  else g.CodeBlock)(
+                                      offset=b.offset, size=b.size,
+                                      uuid=U(700000 + i))
+                            bi.blocks.add(nb)
+                            new.append(nb)
+                        kids = [b for b in kids if b not in S] + new
+                    elif batch == "park-then-move-on":
+                        third = g.ByteInterval(size=1 << 20, address=0x20,
+                                               uuid=U(990013), section=s)
+                        for b in S:
+                            scratch.blocks.add(b)
+                            third.blocks.add(b)
+                        need(len(scratch.blocks) == 0, "C16/scale:contents",
+                             where)
+                        need(same(scratch.byte_blocks_on(range(0, 1 << 21)),
+                                  []), "%s/scale:byte_blocks_on:parking-"
+                             "interval-keeps-blocks" % prop, where)
+                        kids = [b for b in kids if b not in S]
+                        scratch = third
                     elif batch == "sizes":
                         for b in S:
                             b.size = 0 if b.size else 4
@@ -454,8 +502,10 @@ def script_blocks(g, n, prop, out):
                             [b for b in S if b.size]),
                             "%s/scale:byte_blocks_on:target-interval" % prop,
                             where)
-                    need(len(bi.blocks) + len(scratch.blocks) == len(kids),
-                         "C16/scale:contents", where)
+                    if batch not in ("park-then-move-on",
+                                     "replace-same-extent"):
+                        need(len(bi.blocks) + len(scratch.blocks)
+                             == len(kids), "C16/scale:contents", where)
                     check_block_lookups(g, ir, bi, where, prop)
                     if n <= 45:
                         # once more: answers must not depend on the lookups
@@ -474,7 +524,8 @@ def script_intervals(g, n, out):
     steps = 0
     for pre in ("cold", "warm"):
         for batch in ("discard-readd", "move-out-and-back", "addr-edit",
-                      "addr-none", "bulk-add"):
+                      "addr-none", "bulk-add", "there-and-back",
+                      "replace-same-extent", "park-then-move-on"):
             for k in ks(n):
                 ir = g.IR(uuid=U(990001))
                 m = g.Module(name="m", uuid=U(990004), ir=ir)
@@ -482,6 +533,9 @@ def script_intervals(g, n, out):
                 s2 = g.Section(name="t", uuid=U(990008), module=m)
                 ivs = [g.ByteInterval(size=0x800, address=0x1000 * (i + 1),
                                       uuid=U(i)) for i in range(n)]
+                ysym = g.Symbol("y", uuid=U(990009), module=m)
+                for i, b in enumerate(ivs):
+                    b.symbolic_expressions[8] = g.SymAddrConst(i, ysym)
                 s.byte_intervals.update(ivs)
                 where = "intervals n=%d %s %s k=%d" % (n, pre, batch, k)
                 steps += 1
@@ -490,6 +544,7 @@ def script_intervals(g, n, out):
                         s.address, s.size
                         list(s.byte_intervals_on(0x1000))
                         list(m.sections_on(0x1000))
+                        list(s.symbolic_expressions_at(range(0, 1 << 30)))
                     S = ivs[:k]
                     if batch == "discard-readd":
                         for b in S:
@@ -502,6 +557,33 @@ def script_intervals(g, n, out):
                     elif batch == "addr-edit":
                         for b in S:
                             b.address += 0x400
+                    elif batch == "there-and-back":
+                        for b in S:
+                            b.address += 0x200
+                            b.address -= 0x200
+                        for b in S[:2]:
+                            b.size += 1
+                            b.size -= 1
+                    elif batch == "replace-same-extent":
+                        new = []
+                        for i, b in enumerate(S):
+                            s.byte_intervals.discard(b)
+                            nb = g.ByteInterval(size=b.size,
+                                                address=b.address,
+                                                uuid=U(700000 + i))
+                            s.byte_intervals.add(nb)
+                            new.append(nb)
+                        ivs = [b for b in ivs if b not in S] + new
+                    elif batch == "park-then-move-on":
+                        s3 = g.Section(name="u", uuid=U(990015), module=m)
+                        for b in S:
+                            s2.byte_intervals.add(b)
+                            s3.byte_intervals.add(b)
+                        need(same(s2.byte_intervals_on(range(0, 1 << 30)),
+                                  []) and s2.address is None,
+                             "C06/scale:byte_intervals_on:parking-section-"
+                             "keeps-intervals", where)
+                        ivs = [b for b in ivs if b not in S]
                     elif batch == "addr-none":
                         for b in S[:1]:
                             b.address = None
@@ -535,7 +617,16 @@ def script_intervals(g, n, out):
                               min(r.stop, b.address + b.size)]
                         at = [b for b in cur if b.address is not None and
                               b.address in r]
+                        allm = [b for sec in m.sections
+                                for b in sec.byte_intervals]
+                        on_m = [b for b in allm if b.address is not None and
+                                b.size and max(r.start, b.address) <
+                                min(r.stop, b.address + b.size)]
+                        at_m = [b for b in allm if b.address is not None and
+                                b.address in r]
                         for scope in (s, m, ir):
+                            if scope is not s:
+                                on, at = on_m, at_m
                             need(same(scope.byte_intervals_on(q), on),
                                  "C06/scale:byte_intervals_on:%s"
                                  % type(scope).__name__,
@@ -544,6 +635,20 @@ def script_intervals(g, n, out):
                                  "C06/scale:byte_intervals_at:%s"
                                  % type(scope).__name__,
                                  "%s query %r" % (where, q))
+                        for scope, pool in ((s, cur), (m, allm), (ir, allm)):
+                            want = sorted(
+                                (id(b), o) for b in pool
+                                if b.address is not None
+                                for o in b.symbolic_expressions
+                                if b.address + o in r)
+                            got = sorted(
+                                (id(b), o) for b, o, e in
+                                scope.symbolic_expressions_at(q))
+                            need(got == want,
+                                 "C13/scale:at:%s-after-interval-edits"
+                                 % type(scope).__name__,
+                                 lambda: "%s query %r: %d triples, fresh "
+                                 "scan %d" % (where, q, len(got), len(want)))
                         if wa is not None:
                             son = [s] if ws and max(r.start, wa) < min(
                                 r.stop, wa + ws) else []
@@ -1118,7 +1223,7 @@ def plan(prop, tier):
         "C05": [("blocks", sizes)],
         "C12": [("blocks", sizes)],
         "C06": [("intervals", sizes)],
-        "C13": [("symexprs", sizes)],
+        "C13": [("symexprs", sizes), ("intervals", DENSE + [64, 65])],
         "C10": [("symbols", sizes)],
         "C11": [("cfg", sizes)],
         "C18": [("deep_eq", [9, 17, 33, 70])],
@@ -1136,6 +1241,7 @@ def run_script(name, n, prop):
     import gtirb as g
 
     out = []
+    _SINK[0], _SINK[1] = out, 0
     if name.startswith("sets:"):
         steps = script_sets(g, name[5:], n, out)
     elif name == "modlist":
